@@ -14,7 +14,7 @@ twin I <kind> <blocking> <nmw> <bfmt> <body> <j><b><s><r> <ok|err> <code> <order
                                 -> I <ok|rej N|fail|-> exec <inline|offreader> links <k>
    (order, view offset, query and id only steer the implementation run: the routes must agree whatever they are)
 ```
-dreset I                        fresh derived struct (`demoSpec`)            (no observation)
+dreset I <lock kind 0..3>       fresh derived struct (`demoSpec`)            (no observation)
 dstruct I <root> <path> <bfmt> <body> <canonical JSON of the decoded body> <jb..> <wholeOk>
                                 -> I none | I ok <json> | I whole | I err N | I fail
 Strings are hex of their UTF-8 bytes ("-" = empty). -/
@@ -161,7 +161,7 @@ def stepR (r : Router.Router) (ws : List String) : Router.Router × String :=
 
 def step (st : St) (ws : List String) : St × String :=
   match ws with
-  | ["dreset", _] => ({ st with store := [] }, "")
+  | ["dreset", _, _lockKind] => ({ st with store := [] }, "")
   | ["dstruct", idx, root, p, bfmt, body, canon, hints, whole] =>
     match strOfHex root, strOfHex p, bytesOfHex body, bytesOfHex canon with
     | some root, some p, some body, some canon =>
